@@ -27,6 +27,7 @@ type Job struct {
 	ReplayTo string         `json:"replay_out"` // where a shrunk replay is written
 	Recheck  int            `json:"recheck_every"`
 	MaxLeaks int            `json:"max_leaks"`
+	SigsOut  string         `json:"sigs_out"` // determinism self-test: write one "run signature steps" line per run
 }
 
 // WorkerResult is what a worker reports.
@@ -114,6 +115,14 @@ func TestWorker(t *testing.T) {
 	if job.MaxLeaks == 0 {
 		job.MaxLeaks = 300
 	}
+	var sigs *os.File
+	if job.SigsOut != "" {
+		var err error
+		if sigs, err = os.Create(job.SigsOut); err != nil {
+			panic(err)
+		}
+		defer sigs.Close()
+	}
 	run := job.From
 	for ; ; run += job.Workers {
 		if job.MaxRuns > 0 && run >= job.MaxRuns {
@@ -147,6 +156,9 @@ func TestWorker(t *testing.T) {
 			fmt.Fprintf(os.Stderr, "slow run %d: %v steps=%d %s\n", run, d, x.Steps, caseJSON(c))
 		}
 		res.Stats.Runs++
+		if sigs != nil {
+			fmt.Fprintf(sigs, "%d %016x %016x %d\n", run, x.Sig, x.SchedSig, x.Steps)
+		}
 		if vd.Inconcl != "" {
 			res.Stats.Inconclusive[vd.Inconcl]++
 		}
